@@ -207,7 +207,7 @@ def run_pipeline(case, share_opts=False, runner=None):
     tr.scratch = env.scratch_dir()
     CUR = tr
     opts = case["opts"] if share_opts else copy.deepcopy(case["opts"])
-    title = "t_" + case["iso"]
+    title = case.get("title") or ("t_" + case["iso"])
     tr.title = title
     t0 = time.time()
     try:
